@@ -47,11 +47,11 @@ RULE = ("outcome(loads(text)) in Allowed(tokens) from spec/ParseLoop.tla: a dict
         "lark.exceptions.LarkError (syntax errors with 1 <= line <= lines+1, column >= 1); the minimal document of "
         "each of the 19 block types (+SYMBOLSET) must be accepted; time within 20x of linear over a x100 length range (measured)")
 
-CLASSES = ["OPN", "SYM", "STY", "GRD", "END", "WRD", "SAT", "NAM", "NRM", "STR", "INT", "FLT", "HEX", "REX", "BOO",
+CLASSES = ["OPN", "SYM", "STY", "GRD", "FEA", "END", "WRD", "SAT", "NAM", "NRM", "IMG", "STR", "INT", "FLT", "HEX", "REX", "BOO",
            "LSQ", "RSQ", "LPA", "RPA", "LBR", "RBR", "COM", "OP", "NOT", "KVO", "PRJ", "PTS", "CFG", "SET", "AUT",
            "CMT", "JNK", "USTR", "UREX", "UCMT"]
 # the classes the loop / grammar distinguish most; used for the deeper exhaustive run (thorough)
-CORE = ["OPN", "SYM", "STY", "GRD", "END", "WRD", "SAT", "NAM", "NRM", "STR", "INT", "LPA", "RPA", "PTS", "KVO", "JNK"]
+CORE = ["OPN", "SYM", "STY", "GRD", "FEA", "END", "WRD", "NAM", "NRM", "IMG", "STR", "INT", "LPA", "PTS", "KVO", "JNK"]
 ROOT_CLASSES = ["OPN", "SYM", "STY", "GRD", "SET", "KVO"]
 WINDOW = 16
 INVS = ["TypeOK", "Contract", "MinimalAccepted", "PrevIsLast", "RetypeSound"]
@@ -119,26 +119,30 @@ CANARIES = [
     ([{"ev": "tok", "before": "SYMBOL", "after": "SYMBOL", "v": "SYMBOL", "lv": "symbol", "top": {"k": "none", "ty": "", "v": ""}},
       {"ev": "tok", "before": "UNQUOTED_STRING", "after": "UNQUOTED_STRING", "v": "circle", "lv": "circle",
        "top": {"k": "tok", "ty": "SYMBOL", "v": "SYMBOL"}}],
-     {"ev": "out", "kind": "larkerror", "stage": "parse", "haspos": True, "line": 1, "col": 8, "nlines": 1, "isdict": False},
+     {"ev": "out", "kind": "larkerror", "stage": "parse", "haspos": True, "line": 1, "col": 8, "nlines": 1, "isdict": False, "hasexp": False, "eline": 0, "ecol": 0},
      "retype", "ok"),
     ([{"ev": "tok", "before": "GRID", "after": "GRID", "v": "GRID", "lv": "grid", "top": {"k": "tok", "ty": "MAP", "v": "MAP"}}],
-     {"ev": "out", "kind": "other", "stage": "parse", "haspos": False, "line": 0, "col": 0, "nlines": 1, "isdict": False},
+     {"ev": "out", "kind": "other", "stage": "parse", "haspos": False, "line": 0, "col": 0, "nlines": 1, "isdict": False, "hasexp": False, "eline": 0, "ecol": 0},
      "top", "kind"),
     ([{"ev": "tok", "before": "MAP", "after": "MAP", "v": "MAP", "lv": "map", "top": {"k": "none", "ty": "", "v": ""}}],
-     {"ev": "out", "kind": "larkerror", "stage": "parse", "haspos": False, "line": 0, "col": 0, "nlines": 1, "isdict": False},
+     {"ev": "out", "kind": "larkerror", "stage": "parse", "haspos": False, "line": 0, "col": 0, "nlines": 1, "isdict": False, "hasexp": False, "eline": 0, "ecol": 0},
      "", "position"),
     ([{"ev": "tok", "before": "MAP", "after": "MAP", "v": "MAP", "lv": "map", "top": {"k": "none", "ty": "", "v": ""}},
       {"ev": "tok", "before": "_END", "after": "_END", "v": "END", "lv": "end", "top": {"k": "tok", "ty": "MAP", "v": "MAP"}}],
-     {"ev": "out", "kind": "larkerror", "stage": "parse", "haspos": True, "line": 5, "col": 1, "nlines": 2, "isdict": False},
+     {"ev": "out", "kind": "larkerror", "stage": "parse", "haspos": True, "line": 5, "col": 1, "nlines": 2, "isdict": False, "hasexp": False, "eline": 0, "ecol": 0},
      "", "position"),
-    ([], {"ev": "out", "kind": "larkerror", "stage": "transform", "haspos": False, "line": 0, "col": 0, "nlines": 2, "isdict": False},
+    ([], {"ev": "out", "kind": "larkerror", "stage": "transform", "haspos": False, "line": 0, "col": 0, "nlines": 2, "isdict": False, "hasexp": False, "eline": 0, "ecol": 0},
      "", "ok"),
+    ([], {"ev": "out", "kind": "larkerror", "stage": "parse", "haspos": True, "line": 2, "col": 3, "nlines": 9, "isdict": False,
+          "hasexp": True, "eline": 4, "ecol": 3}, "", "exact-position"),
+    ([], {"ev": "out", "kind": "larkerror", "stage": "parse", "haspos": True, "line": 4, "col": 3, "nlines": 9, "isdict": False,
+          "hasexp": True, "eline": 4, "ecol": 3}, "", "ok"),
     ([], {"ev": "time", "n0": 100, "t0us": 5000, "n1": 10000, "t1us": 10000100}, "", "time"),
     ([], {"ev": "time", "n0": 100, "t0us": 5000, "n1": 10000, "t1us": 9999999}, "", "ok"),
     ([], {"ev": "time", "n0": 100, "t0us": 100, "n1": 10000, "t1us": 900000}, "", "ok"),
     ([{"ev": "tok", "before": "MAP", "after": "MAP", "v": "MAP", "lv": "map", "top": {"k": "none", "ty": "", "v": ""}},
       {"ev": "tok", "before": "_END", "after": "_END", "v": "END", "lv": "end", "top": {"k": "tok", "ty": "MAP", "v": "MAP"}}],
-     {"ev": "out", "kind": "ok", "stage": "none", "haspos": False, "line": 0, "col": 0, "nlines": 1, "isdict": True},
+     {"ev": "out", "kind": "ok", "stage": "none", "haspos": False, "line": 0, "col": 0, "nlines": 1, "isdict": True, "hasexp": False, "eline": 0, "ecol": 0},
      "", "ok"),
 ]
 
@@ -255,7 +259,7 @@ def run(tier):
     # (the openers the loop treats specially go one class deeper than the generic opener in thorough)
     jobs.append(("soup_blocks", ["EmitSoup"], dict(c=dict(MaxLen=L, Roots={"SYM", "STY"}))))
     jobs.append(("soup_blocks2", ["EmitSoup"], dict(c=dict(MaxLen=L, Roots={"GRD"}))))
-    jobs.append(("soup_opn", ["EmitSoup"], dict(c=dict(MaxLen=3, Roots={"OPN"}))))
+    jobs.append(("soup_opn", ["EmitSoup"], dict(c=dict(MaxLen=2 if quick else 3, Roots={"OPN"}))))
     jobs.append(("soup_other", ["EmitSoup"], dict(c=dict(MaxLen=2 if quick else 3, Roots={"SET", "KVO"}))))
     if not quick:
         jobs.append(("soup_core5", ["EmitSoup"], dict(c=dict(MaxLen=5, Alphabet=set(CORE)))))
@@ -263,6 +267,9 @@ def run(tier):
     # single lexemes: delimiter x filler unit x closed/unterminated x context x length (exhaustive product)
     jobs.append(("lex", ["EmitLex", "Contract"], dict(c=dict(Mode="lex"))))
     jobs.append(("lextime", ["EmitLex", "Contract"], dict(c=dict(Mode="lextime"))))
+    # behaviours with a determinate first offending token: junk inserted anywhere / one END too many
+    jobs.append(("pos", ["EmitPos", "TypeOK", "RetypeSound"], dict(c=dict(Mode="pos"))))
+    jobs.append(("posw", ["EmitPos", "TypeOK"], dict(c=dict(Mode="posw"))))
     jobs.append(("mut", ["EmitMut", "TypeOK", "PrevIsLast", "RetypeSound"], dict(c=dict(Mode="mut", MaxMut=1 if quick else 2))))
     nsim = 3000 if quick else 40000
     jobs.append(("mutsim", ["EmitMutDone", "TypeOK"],
@@ -303,7 +310,7 @@ def run(tier):
     hdr = None
     sizes = {}
     for tag, r in results.items():
-        if tag.startswith(("soup_", "min", "mut", "sim", "lex")):
+        if tag.startswith(("soup_", "min", "mut", "sim", "lex", "pos")):
             h, beh = split_prints(r)
             hdr = hdr or h
             pl.DATA[tag] = beh
@@ -323,8 +330,13 @@ def run(tier):
     pl.DATA["lex"].sort(key=lambda b: (b["lex"]["d"], b["lex"]["u"], b["lex"]["closed"], b["lex"]["n"], b["lex"]["ctx"]))
     # the lexeme timing shapes join the timing pool now (it has been running the long shapes since the start)
     lsizes = [10, 100, 1000, 10000] if quick else [10, 100, 1000, 10000, 100000]
-    tasync2 = tpool.imap_unordered(pl.time_shape, [(pl.lex_name(dict(b["lex"], ctx="value", n=0)), lsizes, 3, factor)
-                                                   for b in pl.DATA["lextime"]])
+    rshapes = []
+    for a, b in sorted(map(tuple, hdr["retypepairs"])):      # every retyping pair of the spec: dense and many-lines-per-token
+        rshapes += ["retype:%s:%s" % (a, b), "retype:%s:%s:sparse" % (a, b)]
+    if len(rshapes) < 8:
+        raise common.MachineryFailure("the spec lists only %d retyping pairs" % (len(rshapes) // 2))
+    tasync2 = tpool.imap_unordered(pl.time_shape, [(r, tsizes, 3, factor) for r in rshapes] +
+                                   [(pl.lex_name(dict(b["lex"], ctx="value", n=0)), lsizes, 3, factor) for b in pl.DATA["lextime"]])
     pl.CFG.update(seed=seed, allowed=hdr["allowed"], symattrs=symattrs)
     pl.CORPUS[:] = corpus + wdocs
     rng = random.Random(seed * 7919 + 5)
@@ -338,6 +350,13 @@ def run(tier):
             plan.append((di, rng.randrange(len(pl.CORPUS[di][1]) - WINDOW + 1), dj,
                          rng.randrange(len(pl.CORPUS[dj][1]) - WINDOW + 1)))
         pl.DATA[tag + ":plan"] = plan
+    # junk / extra END at determinate places of generated documents (their tokens are known exactly)
+    plan = []
+    if wdocs:
+        for i in range(2500 if quick else 25000):
+            di = ncorp + rng.randrange(len(wdocs))
+            plan.append((di, rng.randrange(len(pl.CORPUS[di][1]) - WINDOW + 1), rng.randrange(sizes["posw"]), rng.randrange(1 << 30)))
+    pl.DATA["posw:plan"] = plan
 
     # ------------------------------------------------------------------ pools (forked now: workers inherit DATA)
     t_fork = time.time()
@@ -364,6 +383,9 @@ def run(tier):
     add(pl.class_batch, "sim", 500, rooted=False, texts=1, rec_every=25, pub_every=pub_every, limit=20.0)
     add(pl.window_batch, "mutw", 150, n=WINDOW, rec_every=60 if quick else 200, limit=60.0)
     add(pl.lex_batch, "lex", 144, limit=3.0)
+    add(pl.class_batch, "pos", 20, rooted=False, texts=20 if quick else 120, rec_every=0, pub_every=0, limit=20.0)
+    for lo in range(0, len(plan), 250):
+        work.append((pl.posw_batch, dict(tag="posw", lo=lo, hi=min(len(plan), lo + 250), n=WINDOW, limit=20.0)))
     # the slow corpus jobs first
     work.sort(key=lambda w: 0 if w[0] is pl.window_batch else 1)
     asyncs = [(fn.__name__, job["tag"], pool.apply_async(fn, (job,))) for (fn, job) in work]
@@ -375,9 +397,11 @@ def run(tier):
     cpu_origin = {}
     sig_seen = {}
     allbad = []
+    determinate = 0
     for fname, tag, a in asyncs:
         res = a.get(timeout=3600)
         ck.count(res["n"])
+        determinate += res.get("determinate", 0)
         per_origin[tag] = per_origin.get(tag, 0) + res["n"]
         cpu_origin[tag] = round(cpu_origin.get(tag, 0.0) + res["cpu"], 2)
         for k, n in res["counts"].items():
@@ -398,6 +422,10 @@ def run(tier):
     pool.close()
     pool.join()
     t_pool = time.time() - t_fork
+    if determinate < 500:
+        raise common.MachineryFailure("only %d behaviours with a determinate offending token had a well-formed remainder" % determinate)
+    ck.notes.append("exact position: %d rejected inputs whose first unshiftable token is determined by the behaviour (junk inserted into / "
+                    "END appended to a well-formed document, multi-line comments and strings in front) - the error must point at it" % determinate)
     for tag, n in sizes.items():
         if not tag.endswith(":plan"):
             ck.nontrivial("%s:%d" % (tag, n))
